@@ -130,7 +130,9 @@ class AsyncTask(futures.FutureBase):
                     self.args,
                     self.kwargs,
                 )
-            except RuntimeError:
+            except Exception:
+                # repr() of an argument failed (RuntimeError: recursion depth; anything else: a
+                # broken __repr__). A name is only diagnostic: it must not fail the computation.
                 self._name = "%06d.%s" % (
                     self._id,
                     core_inspection.get_full_name(self.fn),
